@@ -528,6 +528,40 @@ pub fn gen_caps(rng: &mut Rng, sh: &WorldShape) -> Vec<u32> {
         .collect()
 }
 
+/// One long history on few worlds (thousands of operations): slot generations climb, the free list
+/// is rethreaded by many growth steps between churn phases, the handle book holds thousands of
+/// stale handles that are all re-probed. No magnitude members (bulk), rare forks, no world drops.
+pub fn gen_long_spec(prop: &str, seed: u64, sh: &WorldShape, cfg: BuildCfg, len: u32) -> RunSpec {
+    let mut rng = Rng::new(seed ^ 0x10c6);
+    let mut pr = profile_for(prop, &mut rng, cfg);
+    pr.w[OPK_BULK] = 0;
+    pr.w[OPK_BULK_DESTROY] = 0;
+    pr.w[OPK_DROPWORLD] = 0;
+    pr.w[OPK_SPAWN] = 0;
+    pr.w[OPK_REPLACE] = pr.w[OPK_REPLACE].min(1);
+    pr.w[OPK_CLONE] = pr.w[OPK_CLONE].min(1);
+    pr.w[OPK_CLONE_FROM] = pr.w[OPK_CLONE_FROM].min(1);
+    pr.w[OPK_FILL] = pr.w[OPK_FILL].min(1);
+    // phases: the create/destroy balance flips every few hundred operations so that the
+    // population repeatedly grows past its previous capacity and shrinks back to nearly nothing
+    let caps = gen_caps(&mut rng, sh).into_iter().map(|c| c.min(64)).collect();
+    let mut ops = Vec::with_capacity(len as usize);
+    let base_c = pr.w[OPK_CREATE].max(10);
+    let base_d = pr.w[OPK_DESTROY].max(10);
+    let mut i = 0u32;
+    while i < len {
+        let phase_len = 100 + rng.below(400) as u32;
+        let grow = rng.chance(1, 2);
+        pr.w[OPK_CREATE] = if grow { base_c * 2 } else { base_c / 2 };
+        pr.w[OPK_DESTROY] = if grow { base_d / 2 } else { base_d * 3 };
+        for _ in 0..phase_len.min(len - i) {
+            ops.push(gen_op(&mut rng, sh, &pr));
+        }
+        i += phase_len;
+    }
+    RunSpec { world: sh.name.to_string(), caps, ops, crash_after: None }
+}
+
 pub fn gen_spec(prop: &str, seed: u64, sh: &WorldShape, cfg: BuildCfg) -> RunSpec {
     let mut rng = Rng::new(seed);
     let pr = profile_for(prop, &mut rng, cfg);
